@@ -5,13 +5,21 @@
   Model: the backtracking matcher `Rx.runs` (list of successes, with multiplicity).
   * `Rx.paths env s r i` = number of backtracking paths of `r` from `i`;
   * `Rx.work env s r i`  = number of sub-match attempts of an exhaustive backtracking search;
-  * `Rx.Det r`      (decidable, syntactic) ⇒ all ends of `r` from any start are distinct;
-  * `Rx.StarSafe r` (decidable, syntactic) = every unbounded repeat inside `r` (also inside
+  * `Rx.Det sp r`      (decidable, syntactic) ⇒ all ends of `r` from any start are distinct;
+  * `Rx.StarSafe sp r` (decidable, syntactic) = every unbounded repeat inside `r` (also inside
     look-arounds) is `Det`; bounded repeats are `Det` or have a `StarSafe` body.
-  The environment hypothesis `EnvOK env` (folding = ASCII lower-casing on ASCII, non-ASCII never
-  folds into ASCII) is what makes the ASCII tables of the first-sets exact; `asciiEnv` has it.
+  The analysis is parameterised by a list `sp : Specials` of non-ASCII code points that
+  case-insensitive matching identifies with ASCII letters.  The environment hypothesis
+  `EnvOK sp env` (folding = ASCII lower-casing on ASCII; every special folds to its ASCII image;
+  no other non-ASCII code point folds into ASCII) is what makes the first-set tables sound:
+  * `asciiEnv` (the driver's environment) has it for `sp = []`;
+  * `pyFoldEnv` has it for `sp = foldSpecials`: the four code points `İ ı ſ K` that Python's
+    `re.IGNORECASE` identifies with `i i s k`.  Every special code point has its own exact
+    column in the tables, so an expression that is ambiguous only because of such a code point
+    is rejected (examples at the end).
 
-  Rung 1 of the ladder: everything is proved, for every generated expression (none excluded).
+  Rung 1 of the ladder: everything is proved, for every generated expression (none excluded),
+  for both environments.
   `ends_nodup` is stated for `Det` (and for the unbounded repeats of a `StarSafe` expression),
   NOT for every `StarSafe` expression, because that would be false: `RE_CSS_ESC` is `StarSafe`
   but its top-level branches overlap (`\a` is matched by two branches, ends `[2, 2]`), which is a
@@ -19,6 +27,7 @@
 -/
 import SoupVerif.Lemmas.RegexCost
 import SoupVerif.Generated.Regexes
+set_option autoImplicit false
 namespace SoupVerif
 namespace C07
 open Rx
@@ -27,28 +36,31 @@ open Rx
 
 /-- The end positions produced by a `Det` expression are pairwise distinct: no stretch of input
     is matched along two different backtracking paths. -/
-theorem ends_nodup {r : Rx} (h : Det r = true) {env : CharEnv} (ok : EnvOK env)
-    (s : Str) (i : Nat) (caps : Caps) : ((runs env s r i caps).map (·.1)).Nodup := by
+theorem ends_nodup {sp : Specials} {r : Rx} (h : Det sp r = true) {env : CharEnv}
+    (ok : EnvOK sp env) (s : Str) (i : Nat) (caps : Caps) :
+    ((runs env s r i caps).map (·.1)).Nodup := by
   rw [runs_map_fst]; exact det_ends_nodup env ok s r h i
 
 /-- Unique decomposition: every unbounded repeat accepted by `StarSafe` reaches each end
     position along exactly one sequence of body matches. -/
-theorem iter_nodup {mn : Nat} {g : Bool} {body : Rx} (h : StarSafe (.rep mn none g body) = true)
-    {env : CharEnv} (ok : EnvOK env) (s : Str) (i : Nat) (caps : Caps) :
+theorem iter_nodup {sp : Specials} {mn : Nat} {g : Bool} {body : Rx}
+    (h : StarSafe sp (.rep mn none g body) = true)
+    {env : CharEnv} (ok : EnvOK sp env) (s : Str) (i : Nat) (caps : Caps) :
     ((runs env s (.rep mn none g body) i caps).map (·.1)).Nodup :=
   ends_nodup (starSafe_star_det h) ok s i caps
 
 /-- A `Det` expression has at most `|s| + 1` backtracking paths from any start. -/
-theorem det_paths_le {r : Rx} (h : Det r = true) {env : CharEnv} (ok : EnvOK env)
-    (s : Str) (i : Nat) (caps : Caps) : (runs env s r i caps).length ≤ s.length + 1 := by
+theorem det_paths_le {sp : Specials} {r : Rx} (h : Det sp r = true) {env : CharEnv}
+    (ok : EnvOK sp env) (s : Str) (i : Nat) (caps : Caps) :
+    (runs env s r i caps).length ≤ s.length + 1 := by
   rw [← List.length_map (f := (·.1)), runs_map_fst]; exact det_length_le env ok s r h i
 
 /-! ## Polynomial bounds -/
 
 /-- The number of backtracking paths of a `StarSafe` expression is polynomial in `|s|`. -/
-theorem paths_le {r : Rx} (h : StarSafe r = true) {env : CharEnv} (ok : EnvOK env)
-    (s : Str) (i : Nat) (caps : Caps) :
-    (runs env s r i caps).length ≤ pcoef r * (s.length + 1) ^ pdeg r := by
+theorem paths_le {sp : Specials} {r : Rx} (h : StarSafe sp r = true) {env : CharEnv}
+    (ok : EnvOK sp env) (s : Str) (i : Nat) (caps : Caps) :
+    (runs env s r i caps).length ≤ pcoef sp r * (s.length + 1) ^ pdeg sp r := by
   rw [← List.length_map (f := (·.1)), runs_map_fst]; exact ends_poly env ok s r h i
 
 /-- The cost function dominates the number of paths (no hypothesis). -/
@@ -57,23 +69,53 @@ theorem paths_le_work (env : CharEnv) (s : Str) (r : Rx) (i : Nat) :
 
 /-- The work of an exhaustive backtracking search of a `StarSafe` expression is polynomial in
     `|s|`, with constants computed from the expression. -/
-theorem work_poly {r : Rx} (h : StarSafe r = true) {env : CharEnv} (ok : EnvOK env)
-    (s : Str) (i : Nat) : work env s r i ≤ wcoef r * (s.length + 1) ^ wdeg r :=
+theorem work_poly {sp : Specials} {r : Rx} (h : StarSafe sp r = true) {env : CharEnv}
+    (ok : EnvOK sp env) (s : Str) (i : Nat) :
+    work env s r i ≤ wcoef sp r * (s.length + 1) ^ wdeg sp r :=
   work_poly_aux env ok s r h i
+
+/-! ## The two environments -/
+
+/-- The driver's ASCII environment satisfies the hypothesis with no special code points. -/
+theorem asciiEnv_ok : EnvOK [] asciiEnv := Rx.asciiEnv_ok
+
+/-- Python's `re.IGNORECASE | re.UNICODE` folding, as far as ASCII is concerned: `İ ı ſ K` are
+    identified with `i i s k`; no other non-ASCII code point is identified with an ASCII one. -/
+theorem pyFoldEnv_ok : EnvOK foldSpecials pyFoldEnv := Rx.pyFoldEnv_ok
 
 /-! ## The library's expressions -/
 
-/-- Every regular expression generated from the Python source passes the check. -/
-theorem all_safe : ∀ p ∈ Gen.allRegexes, Rx.StarSafe p.2 = true := by decide +kernel
+/-- Every regular expression generated from the Python source passes the check made for the
+    ASCII environment (no special code points). -/
+theorem all_safe_ascii : ∀ p ∈ Gen.allRegexes, Rx.StarSafe [] p.2 = true := by decide +kernel
 
-/-- No generated expression had to be excluded. -/
+/-- Every regular expression generated from the Python source passes the check that takes
+    Python's four non-ASCII/ASCII case identifications into account. -/
+theorem all_safe_py : ∀ p ∈ Gen.allRegexes, Rx.StarSafe foldSpecials p.2 = true := by
+  decide +kernel
+
+/-- Both checks. -/
+theorem all_safe : ∀ p ∈ Gen.allRegexes,
+    Rx.StarSafe [] p.2 = true ∧ Rx.StarSafe foldSpecials p.2 = true :=
+  fun p hp => ⟨all_safe_ascii p hp, all_safe_py p hp⟩
+
+/-- No generated expression had to be excluded (for either list of special code points). -/
 def excluded : List String := []
 
-/-- Uniform constants over all generated expressions. -/
-def workC : Nat := listMax (Gen.allRegexes.map fun p => wcoef p.2)
-def workK : Nat := listMax (Gen.allRegexes.map fun p => wdeg p.2)
-def pathsC : Nat := listMax (Gen.allRegexes.map fun p => pcoef p.2)
-def pathsK : Nat := listMax (Gen.allRegexes.map fun p => pdeg p.2)
+/-- Uniform constants over all generated expressions, for the check made with `sp`. -/
+def workCOf (sp : Specials) : Nat := listMax (Gen.allRegexes.map fun p => wcoef sp p.2)
+def workKOf (sp : Specials) : Nat := listMax (Gen.allRegexes.map fun p => wdeg sp p.2)
+def pathsCOf (sp : Specials) : Nat := listMax (Gen.allRegexes.map fun p => pcoef sp p.2)
+def pathsKOf (sp : Specials) : Nat := listMax (Gen.allRegexes.map fun p => pdeg sp p.2)
+
+/-- Uniform constants valid for both environments: the maximum of the two.  (At present the two
+    checks yield the same constants — `#eval (workCOf [], workKOf [], pathsCOf [], pathsKOf [])`
+    and the same for `foldSpecials` print `(2311, 19, 5, 9)` — i.e. no library expression's
+    determinism depends on the special code points; nothing below relies on that.) -/
+def workC : Nat := max (workCOf []) (workCOf foldSpecials)
+def workK : Nat := max (workKOf []) (workKOf foldSpecials)
+def pathsC : Nat := max (pathsCOf []) (pathsCOf foldSpecials)
+def pathsK : Nat := max (pathsKOf []) (pathsKOf foldSpecials)
 
 /-- The constants are computed from the generated expressions (`#eval (workC, workK, pathsC, pathsK)`
     prints them); they are closed natural numbers, so the bounds below are concrete polynomials.
@@ -81,38 +123,98 @@ def pathsK : Nat := listMax (Gen.allRegexes.map fun p => pdeg p.2)
     them.) -/
 theorem consts_closed : ∃ a b c d : Nat, workC = a ∧ workK = b ∧ pathsC = c ∧ pathsK = d := ⟨_, _, _, _, rfl, rfl, rfl, rfl⟩
 
-/-- Every library expression costs at most `workC * (|s|+1)^workK` sub-match attempts on any
+/-- Every expression of a list that passes the check made with `sp` costs, in any environment
+    satisfying `EnvOK sp`, at most `workCOf sp * (|s|+1)^workKOf sp` sub-match attempts on any
     input `s` from any start, hence at most that many backtracking paths. -/
-theorem tokenize_poly {env : CharEnv} (ok : EnvOK env) :
+theorem tokenize_poly_of {sp : Specials} (hs : ∀ p ∈ Gen.allRegexes, StarSafe sp p.2 = true)
+    {env : CharEnv} (ok : EnvOK sp env) :
+    ∀ p ∈ Gen.allRegexes, ∀ (s : Str) (i : Nat),
+      work env s p.2 i ≤ workCOf sp * (s.length + 1) ^ workKOf sp ∧
+      paths env s p.2 i ≤ workCOf sp * (s.length + 1) ^ workKOf sp := by
+  intro p hp s i
+  have hN : 0 < s.length + 1 := Nat.succ_pos _
+  have h1 := work_poly (hs p hp) ok s i
+  have hc : wcoef sp p.2 ≤ workCOf sp := le_listMax (List.mem_map.mpr ⟨p, hp, rfl⟩)
+  have hk : wdeg sp p.2 ≤ workKOf sp := le_listMax (List.mem_map.mpr ⟨p, hp, rfl⟩)
+  have h2 : work env s p.2 i ≤ workCOf sp * (s.length + 1) ^ workKOf sp :=
+    Nat.le_trans h1 (Nat.mul_le_mul hc (Nat.pow_le_pow_right hN hk))
+  exact ⟨h2, Nat.le_trans (Rx.paths_le_work env s p.2 i) h2⟩
+
+/-- Sharper bound on the number of backtracking paths. -/
+theorem tokenize_paths_poly_of {sp : Specials}
+    (hs : ∀ p ∈ Gen.allRegexes, StarSafe sp p.2 = true) {env : CharEnv} (ok : EnvOK sp env) :
+    ∀ p ∈ Gen.allRegexes, ∀ (s : Str) (i : Nat),
+      paths env s p.2 i ≤ pathsCOf sp * (s.length + 1) ^ pathsKOf sp := by
+  intro p hp s i
+  have hN : 0 < s.length + 1 := Nat.succ_pos _
+  have h1 := paths_le (hs p hp) ok s i []
+  have hc : pcoef sp p.2 ≤ pathsCOf sp := le_listMax (List.mem_map.mpr ⟨p, hp, rfl⟩)
+  have hk : pdeg sp p.2 ≤ pathsKOf sp := le_listMax (List.mem_map.mpr ⟨p, hp, rfl⟩)
+  exact Nat.le_trans h1 (Nat.mul_le_mul hc (Nat.pow_le_pow_right hN hk))
+
+private theorem widen {x c k C K N : Nat} (hN : 0 < N) (h : x ≤ c * N ^ k) (hc : c ≤ C)
+    (hk : k ≤ K) : x ≤ C * N ^ K :=
+  Nat.le_trans h (Nat.mul_le_mul hc (Nat.pow_le_pow_right hN hk))
+
+/-- Every library expression costs at most `workC * (|s|+1)^workK` sub-match attempts on any
+    input `s` from any start, hence at most that many backtracking paths, in every environment
+    whose folding identifies exactly Python's four special code points with ASCII letters. -/
+theorem tokenize_poly {env : CharEnv} (ok : EnvOK foldSpecials env) :
     ∀ p ∈ Gen.allRegexes, ∀ (s : Str) (i : Nat),
       work env s p.2 i ≤ workC * (s.length + 1) ^ workK ∧
       paths env s p.2 i ≤ workC * (s.length + 1) ^ workK := by
   intro p hp s i
   have hN : 0 < s.length + 1 := Nat.succ_pos _
-  have h1 := work_poly (all_safe p hp) ok s i
-  have hc : wcoef p.2 ≤ workC := le_listMax (List.mem_map.mpr ⟨p, hp, rfl⟩)
-  have hk : wdeg p.2 ≤ workK := le_listMax (List.mem_map.mpr ⟨p, hp, rfl⟩)
-  have h2 : work env s p.2 i ≤ workC * (s.length + 1) ^ workK :=
-    Nat.le_trans h1 (Nat.mul_le_mul hc (Nat.pow_le_pow_right hN hk))
-  exact ⟨h2, Nat.le_trans (Rx.paths_le_work env s p.2 i) h2⟩
+  obtain ⟨h1, h2⟩ := tokenize_poly_of all_safe_py ok p hp s i
+  exact ⟨widen hN h1 (Nat.le_max_right _ _) (Nat.le_max_right _ _),
+    widen hN h2 (Nat.le_max_right _ _) (Nat.le_max_right _ _)⟩
 
-/-- The same for the ASCII environment the driver uses. -/
+/-- The bound for Python's case-insensitive matching (`re.I | re.U`), including the four
+    non-ASCII code points that match ASCII letters. -/
+theorem tokenize_poly_py :
+    ∀ p ∈ Gen.allRegexes, ∀ (s : Str) (i : Nat),
+      work pyFoldEnv s p.2 i ≤ workC * (s.length + 1) ^ workK := by
+  intro p hp s i
+  exact (tokenize_poly pyFoldEnv_ok p hp s i).1
+
+/-- The same for every environment without special code points … -/
+theorem tokenize_poly_nosp {env : CharEnv} (ok : EnvOK [] env) :
+    ∀ p ∈ Gen.allRegexes, ∀ (s : Str) (i : Nat),
+      work env s p.2 i ≤ workC * (s.length + 1) ^ workK ∧
+      paths env s p.2 i ≤ workC * (s.length + 1) ^ workK := by
+  intro p hp s i
+  have hN : 0 < s.length + 1 := Nat.succ_pos _
+  obtain ⟨h1, h2⟩ := tokenize_poly_of all_safe_ascii ok p hp s i
+  exact ⟨widen hN h1 (Nat.le_max_left _ _) (Nat.le_max_left _ _),
+    widen hN h2 (Nat.le_max_left _ _) (Nat.le_max_left _ _)⟩
+
+/-- … in particular for the ASCII environment the driver uses. -/
 theorem tokenize_poly_ascii :
     ∀ p ∈ Gen.allRegexes, ∀ (s : Str) (i : Nat),
       work asciiEnv s p.2 i ≤ workC * (s.length + 1) ^ workK := by
   intro p hp s i
-  exact (tokenize_poly asciiEnv_ok p hp s i).1
+  exact (tokenize_poly_nosp asciiEnv_ok p hp s i).1
 
-/-- Sharper bound on the number of backtracking paths of every library expression. -/
-theorem tokenize_paths_poly {env : CharEnv} (ok : EnvOK env) :
+/-- Sharper bound on the number of backtracking paths of every library expression (Python's
+    special code points). -/
+theorem tokenize_paths_poly {env : CharEnv} (ok : EnvOK foldSpecials env) :
     ∀ p ∈ Gen.allRegexes, ∀ (s : Str) (i : Nat),
       paths env s p.2 i ≤ pathsC * (s.length + 1) ^ pathsK := by
   intro p hp s i
-  have hN : 0 < s.length + 1 := Nat.succ_pos _
-  have h1 := paths_le (all_safe p hp) ok s i []
-  have hc : pcoef p.2 ≤ pathsC := le_listMax (List.mem_map.mpr ⟨p, hp, rfl⟩)
-  have hk : pdeg p.2 ≤ pathsK := le_listMax (List.mem_map.mpr ⟨p, hp, rfl⟩)
-  exact Nat.le_trans h1 (Nat.mul_le_mul hc (Nat.pow_le_pow_right hN hk))
+  exact widen (Nat.succ_pos _) (tokenize_paths_poly_of all_safe_py ok p hp s i)
+    (Nat.le_max_right _ _) (Nat.le_max_right _ _)
+
+theorem tokenize_paths_poly_py :
+    ∀ p ∈ Gen.allRegexes, ∀ (s : Str) (i : Nat),
+      paths pyFoldEnv s p.2 i ≤ pathsC * (s.length + 1) ^ pathsK :=
+  tokenize_paths_poly pyFoldEnv_ok
+
+theorem tokenize_paths_poly_ascii :
+    ∀ p ∈ Gen.allRegexes, ∀ (s : Str) (i : Nat),
+      paths asciiEnv s p.2 i ≤ pathsC * (s.length + 1) ^ pathsK := by
+  intro p hp s i
+  exact widen (Nat.succ_pos _) (tokenize_paths_poly_of all_safe_ascii asciiEnv_ok p hp s i)
+    (Nat.le_max_left _ _) (Nat.le_max_left _ _)
 
 /-! ## The old defect is expressible and rejected -/
 
@@ -124,47 +226,127 @@ def oldValue : Rx := .seq [.lit 34 false, oldStar, .lit 34 false]
 /-- `"` followed by `n` letters `a`, no closing quote. -/
 def pump (n : Nat) : Str := 34 :: List.replicate n 97
 
-example : StarSafe oldValue = false := by decide
-example : StarSafe oldStar = false := by decide
+example : StarSafe [] oldValue = false := by decide
+example : StarSafe [] oldStar = false := by decide
+example : StarSafe foldSpecials oldValue = false := by decide
+example : StarSafe foldSpecials oldStar = false := by decide
 /-- `2^n` backtracking paths through the star on `pump n`. -/
 example : paths asciiEnv (pump 12) oldStar 1 = 2 ^ 12 := by decide +kernel
+example : paths pyFoldEnv (pump 12) oldStar 1 = 2 ^ 12 := by decide +kernel
 example : work asciiEnv (pump 12) oldValue 0 ≥ 2 ^ 10 := by decide +kernel
 /-- The repaired attribute token (as generated) on `[a="aaa…` without a closing quote: linear
     (`5 n + 99`). -/
 example : work asciiEnv ([91, 97, 61] ++ pump 12) Gen.tok_attribute 0 = 159 ∧
     work asciiEnv ([91, 97, 61] ++ pump 24) Gen.tok_attribute 0 = 219 := by decide +kernel
+example : work pyFoldEnv ([91, 97, 61] ++ pump 12) Gen.tok_attribute 0 = 159 ∧
+    work pyFoldEnv ([91, 97, 61] ++ pump 24) Gen.tok_attribute 0 = 219 := by decide +kernel
 
 /-! ## Non-vacuity of the checker -/
 
-example : StarSafe Gen.cp_RE_WS_BEGIN = true := by decide +kernel
-example : StarSafe Gen.tok_combine = true := by decide +kernel
-example : StarSafe Gen.tok_attribute = true := by decide +kernel
-example : Det Gen.cp_RE_WS_BEGIN = true := by decide +kernel
+example : StarSafe [] Gen.cp_RE_WS_BEGIN = true := by decide +kernel
+example : StarSafe [] Gen.tok_combine = true := by decide +kernel
+example : StarSafe [] Gen.tok_attribute = true := by decide +kernel
+example : Det [] Gen.cp_RE_WS_BEGIN = true := by decide +kernel
+example : StarSafe foldSpecials Gen.cp_RE_WS_BEGIN = true := by decide +kernel
+example : StarSafe foldSpecials Gen.tok_combine = true := by decide +kernel
+example : StarSafe foldSpecials Gen.tok_attribute = true := by decide +kernel
+example : Det foldSpecials Gen.cp_RE_WS_BEGIN = true := by decide +kernel
 /-- `StarSafe` does not imply distinct ends of the whole expression: two branches match `\a`. -/
-example : Det Gen.cp_RE_CSS_ESC = false ∧ ends asciiEnv [92, 97] Gen.cp_RE_CSS_ESC 0 = [2, 2] := by
+example : Det [] Gen.cp_RE_CSS_ESC = false ∧ Det foldSpecials Gen.cp_RE_CSS_ESC = false ∧
+    ends asciiEnv [92, 97] Gen.cp_RE_CSS_ESC 0 = [2, 2] := by
   decide +kernel
 
 private def a : Rx := .lit 97 false
 private def b : Rx := .lit 98 false
 /-- `(a+)*` -/
-example : StarSafe (.rep 0 none true (.rep 1 none true a)) = false := by decide
+example : StarSafe [] (.rep 0 none true (.rep 1 none true a)) = false := by decide
 /-- `(a|a)*` -/
-example : StarSafe (.rep 0 none true (.alt [a, a])) = false := by decide
+example : StarSafe [] (.rep 0 none true (.alt [a, a])) = false := by decide
 /-- `(a*)*` -/
-example : StarSafe (.rep 0 none true (.rep 0 none true a)) = false := by decide
+example : StarSafe [] (.rep 0 none true (.rep 0 none true a)) = false := by decide
 /-- `(ab?b?)*` -/
-example : StarSafe (.rep 0 none true
+example : StarSafe [] (.rep 0 none true
     (.seq [a, .rep 0 (some 1) true b, .rep 0 (some 1) true b])) = false := by decide
 /-- `(a|ab)(b|c)*`-style overlap inside a star: `(?:a|ab)*` -/
-example : StarSafe (.rep 0 none true (.alt [a, .seq [a, b]])) = false := by decide
+example : StarSafe [] (.rep 0 none true (.alt [a, .seq [a, b]])) = false := by decide
 /-- the old hex-escape overlap `(?:\\[a-f0-9]{1,6}|\\[^\r\n\f])+` -/
-example : StarSafe (.rep 1 none true (.alt [
+example : StarSafe [] (.rep 1 none true (.alt [
     .seq [.lit 92 false, .rep 1 (some 6) true (.set false [.range 97 102, .range 48 57] false)],
     .seq [.lit 92 false, .set true [.ch 13, .ch 10, .ch 12] false]])) = false := by decide
 /-- `(ab)*`, `(a|b)*`, `(a*b)*` are accepted -/
-example : StarSafe (.rep 0 none true (.seq [a, b])) = true := by decide
-example : StarSafe (.rep 0 none true (.alt [a, b])) = true := by decide
-example : StarSafe (.rep 0 none true (.seq [.rep 0 none true a, b])) = true := by decide
+example : StarSafe [] (.rep 0 none true (.seq [a, b])) = true := by decide
+example : StarSafe [] (.rep 0 none true (.alt [a, b])) = true := by decide
+example : StarSafe [] (.rep 0 none true (.seq [.rep 0 none true a, b])) = true := by decide
+/-- the same verdicts with Python's special code points -/
+example : StarSafe foldSpecials (.rep 0 none true (.rep 1 none true a)) = false := by decide
+example : StarSafe foldSpecials (.rep 0 none true (.alt [a, a])) = false := by decide
+example : StarSafe foldSpecials (.rep 0 none true (.alt [a, .seq [a, b]])) = false := by decide
+example : StarSafe foldSpecials (.rep 0 none true (.seq [a, b])) = true := by decide
+example : StarSafe foldSpecials (.rep 0 none true (.alt [a, b])) = true := by decide
+example : StarSafe foldSpecials (.rep 0 none true (.seq [.rep 0 none true a, b])) = true := by
+  decide
+
+/-! ## The analysis sees the special code points
+
+Expressions that are ambiguous *only* because a non-ASCII code point is case-insensitively equal
+to an ASCII letter: accepted when there are no special code points (correctly: they are
+unambiguous under `asciiEnv`), rejected for Python's (correctly: exponentially many paths under
+`pyFoldEnv`). -/
+
+/-- `n` copies of `ſ` (U+017F). -/
+def longS (n : Nat) : Str := List.replicate n 383
+/-- `n` copies of `K` (U+212A, KELVIN SIGN). -/
+def kelvins (n : Nat) : Str := List.replicate n 8490
+
+/-- `(?i)(?:[is]|[\x80-\U0010ffff])*`: `ſ` matches `[is]` (it folds to `s`) and the range. -/
+def foldAmb : Rx :=
+  .rep 0 none true (.alt [.set false [.ch 105, .ch 115] true, .set false [.range 128 1114111] true])
+example : StarSafe [] foldAmb = true := by decide
+example : StarSafe foldSpecials foldAmb = false := by decide
+example : setHas pyFoldEnv false [.ch 105, .ch 115] true 383 = true ∧
+    setHas pyFoldEnv false [.range 128 1114111] true 383 = true ∧
+    setHas asciiEnv false [.ch 105, .ch 115] true 383 = false := by decide
+/-- `2^(n+1) - 1` backtracking paths on `ſ…ſ` with Python's folding, `n + 1` with ASCII folding. -/
+example : paths pyFoldEnv (longS 12) foldAmb 0 = 2 ^ 13 - 1 := by decide +kernel
+example : paths asciiEnv (longS 12) foldAmb 0 = 13 := by decide +kernel
+example : work pyFoldEnv (longS 12) foldAmb 0 ≥ 2 ^ 13 := by decide +kernel
+
+/-- `(?:(?i:[is])|[^\x00-\x7f])*`: the case-sensitive negated class matches `ſ`, and so does
+    the case-insensitive `[is]`. -/
+def foldAmb2 : Rx :=
+  .rep 0 none true (.alt [.set false [.ch 105, .ch 115] true, .set true [.range 0 127] false])
+example : StarSafe [] foldAmb2 = true := by decide
+example : StarSafe foldSpecials foldAmb2 = false := by decide
+example : paths pyFoldEnv (longS 12) foldAmb2 0 = 2 ^ 13 - 1 := by decide +kernel
+
+/-- `(?i)(?:k|K)*`: with Python's folding both literals match `k`, `K` and `K`. -/
+def foldAmb3 : Rx := .rep 0 none true (.alt [.lit 107 true, .lit 8490 true])
+example : StarSafe [] foldAmb3 = true := by decide
+example : StarSafe foldSpecials foldAmb3 = false := by decide
+example : paths pyFoldEnv (kelvins 12) foldAmb3 0 = 2 ^ 13 - 1 := by decide +kernel
+example : paths pyFoldEnv (List.replicate 12 107) foldAmb3 0 = 2 ^ 13 - 1 := by decide +kernel
+example : paths asciiEnv (kelvins 12) foldAmb3 0 = 13 := by decide +kernel
+
+/-- The special columns are exact, not merely pessimistic.  In `(?i)(?:[is]|[^\x00-\x7f])*` the
+    negated class does *not* match `ſ` under ignore-case (`ſ` folds to `s`, which the class
+    excludes — in the model as in Python), so the expression is unambiguous and accepted. -/
+def foldOk : Rx :=
+  .rep 0 none true (.alt [.set false [.ch 105, .ch 115] true, .set true [.range 0 127] true])
+example : setHas pyFoldEnv true [.range 0 127] true 383 = false := by decide
+example : StarSafe [] foldOk = true := by decide
+example : StarSafe foldSpecials foldOk = true := by decide
+example : paths pyFoldEnv (longS 12) foldOk 0 = 13 := by decide +kernel
+/-- `(?i)(?:s|ı)*`: `ı` (U+0131) folds to `i`, not `s`: accepted. -/
+example : StarSafe foldSpecials (.rep 0 none true (.alt [.lit 115 true, .lit 305 true])) = true := by
+  decide
+/-- `(?i)(?:i|ı)*`, `(?i)(?:İ|ı)*`: rejected. -/
+example : StarSafe foldSpecials (.rep 0 none true (.alt [.lit 105 true, .lit 305 true])) = false := by
+  decide
+example : StarSafe foldSpecials (.rep 0 none true (.alt [.lit 304 true, .lit 305 true])) = false := by
+  decide
+/-- … but case-sensitively `İ` and `ı` are different characters. -/
+example : StarSafe foldSpecials (.rep 0 none true (.alt [.lit 304 false, .lit 305 false])) = true := by
+  decide
 
 end C07
 end SoupVerif
